@@ -128,6 +128,9 @@ func (r *Recorder) BuildLine(s *Scenario, ev *Ev, fr idx.Frame) {
 	l["op"] = "b"
 	r.emit(l)
 	r.Stats["builds"]++
+	if sp, ok := s.ByID[ev.SP]; ok && fr == sp.Frame+100 {
+		r.Stats["builds_at_cap"]++
+	}
 }
 
 func (r *Recorder) RestartLine(in *Inst) {
